@@ -250,8 +250,23 @@ impl Prop for C16 {
         let ag = gen_grammar(&mut ch, &table_opts(tier));
         serde_json::to_value(GCase { ag, text: None }).unwrap()
     }
+    fn extra_cases(&self, _tier: Tier, _seed: u64) -> Vec<Value> {
+        // degenerate grammars no generator draws: no token at all (only end of input), tokens
+        // declared but never used; judged in text mode
+        use crate::genr::yrender::YKind;
+        [
+            "%%\nS: ;\n",
+            "%start S\n%%\nS: A ;\nA: ;\n",
+            "%start S\n%%\nS: A B ;\nA: ;\nB: A | ;\n",
+            "%token X Y\n%%\nS: ;\n",
+            "%token X\n%left X\n%%\nS: T ;\nT: ;\n",
+        ]
+        .iter()
+        .map(|t| serde_json::to_value(GCase { ag: AG::default(), text: Some((YKind::Generic, t.to_string())) }).unwrap())
+        .collect()
+    }
     fn rule(&self) -> String {
-        "AG from strata expr (50%, random %left/%right/%nonassoc lines and %prec), rand (with random precedence lines, cycles and unproductive rules allowed), lr1, repo. 1/8 of the cases are C10 renderings of any kind (Eco with %implicit_tokens included) judged through the implementation's own grammar object (all clauses but the closure). Oracle: for every state x token x rule the public queries are cross-checked (state_actions/state_shifts vs action, Shift target vs edge, goto vs edge, core_reduces, reduce_only_state, reachability, start_state, closed_state == reference LR(1) closure of core_state). Evaluation = one state of one grammar. Non-trivial: the grammar's table has a cell changed by resolution (reduce replaced by shift through precedence, or removed by %nonassoc) or a state with two reductions of the same (rule,length); distinct by hash(grammar).".into()
+        "AG from strata expr (50%, random %left/%right/%nonassoc lines and %prec), rand (with random precedence lines, cycles and unproductive rules allowed), lr1, repo. 1/8 of the cases are C10 renderings of any kind (Eco with %implicit_tokens included) judged through the implementation's own grammar object (all clauses but the closure); five fixed degenerate texts (no token at all, tokens declared but unused). Oracle: for every state x token x rule the public queries are cross-checked (state_actions/state_shifts vs action, Shift target vs edge, goto vs edge, core_reduces, reduce_only_state, reachability, start_state, closed_state == reference LR(1) closure of core_state). Evaluation = one state of one grammar. Non-trivial: the grammar's table has a cell changed by resolution (reduce replaced by shift through precedence, or removed by %nonassoc) or a state with two reductions of the same (rule,length); distinct by hash(grammar).".into()
     }
     fn assumptions(&self) -> Vec<String> {
         vec!["reference LR(1) closure (FIRST/nullable from refimpl::analyses) trusted".into()]
